@@ -51,8 +51,26 @@ def _contexts():
     return regen.check("contexts", core.REPO, core.LEAN)
 
 
+# one prepared update / scope object used by two tasks at overlapping times (handed over through a closure): the second user is
+# refused, or – where a second use is allowed – both leave the context as they found it, in whatever order they leave
+SHARED_DIRECTED = [
+    json.dumps({"prog": [["block", "async", 9, [[0, 9000]], [], [
+        ["block", kind, 1, [[0, 5]], [], [["spawn", 1, how, [["probe", 1], ["reenter", 1, 2], ["probe", 2]]], ["await", 1]]],
+        ["probe", 3], ["await", 3]]]], "sched": sched}, separators=(",", ":"))
+    for kind in ("upd", "sync") for how in ("create", "spawn") for sched in ([0], [1, 0], [0, 0])
+]
+
+
+# the body ends with a StopIteration: it reaches the caller as that object like any other exception
+STOPITER_DIRECTED = [
+    json.dumps({"prog": [["block", "async", 9, [[0, 9000]], [], [["block", kind, 1, [[0, 5]], disps, [["probe", 1], ["raise", "stopiter"]]],
+                                                                  ["probe", 2]]]], "sched": []}, separators=(",", ":"))
+    for kind, disps in (("async", []), ("sync", []), ("upd", []), ("async", [[1, "ok", "ok", [[1, 7]]]]))
+]
+
+
 def corpus():
-    return BADLOG_DIRECTED + list(cd.single_block_family(1))
+    return BADLOG_DIRECTED + SHARED_DIRECTED + STOPITER_DIRECTED + list(cd.single_block_family(1))
 
 
 def generate(rng, tier):
